@@ -151,7 +151,22 @@ def check_tuple(acc, pendulum, kw, absolute=False):
         if got_o != comp:
             acc.mismatch("components", "accessor-order", dict(case, order=[names[i_] for i_ in order]), got_o, comp)
         # the library's own rebuilds from components: deepcopy, negation twice, the reduce protocol
-        for lbl, mk in (("deepcopy", lambda: copy.deepcopy(d)), ("neg-neg", lambda: -(-d)), ("reduce", lambda: (lambda r: r[0](*r[1]))(d.__reduce__()))):
+        # ... on the fresh value, and again after it has been put into words (twice: the same words)
+        def _words():
+            w1 = [str(d), d.in_words(), d.in_words(locale="ru"), repr(d)]
+            w2 = [str(d), d.in_words(), d.in_words(locale="ru"), repr(d)]
+            if w1 != w2:
+                acc.mismatch("rebuild", "in_words-twice", case, w2, w1)
+        for lbl, mk in (("deepcopy", lambda: copy.deepcopy(d)), ("neg-neg", lambda: -(-d)), ("reduce", lambda: (lambda r: r[0](*r[1]))(d.__reduce__())),
+                        ("words", _words),
+                        ("after-words/deepcopy", lambda: copy.deepcopy(d)), ("after-words/neg-neg", lambda: -(-d)), ("after-words/abs-of-neg", lambda: -(-(-(-d)))),
+                        ("after-words/reduce", lambda: (lambda r: r[0](*r[1]))(d.__reduce__()))):
+            if lbl == "words":
+                try:
+                    mk()
+                except Exception:  # noqa: BLE001
+                    pass     # C18's business
+                continue
             acc.c["evaluations"] += 1
             try:
                 r2 = mk()
